@@ -422,7 +422,7 @@ PROPS["C06"] = Prop(
     [Stage("asan", "c06_xmlfuzz", "asan", quick=16000, thorough=800000, per_worker_env=xml_backend_env,
            env={"ASAN_OPTIONS_EXTRA": "max_allocation_size_mb=256"}),
      # under memcheck a multi-GB malloc simply succeeds lazily; the uninstrumented importer then only touches what the document provides
-     valgrind_stage("c06_xmlfuzz", 9600, per_worker_env=xml_backend_env)],
+     valgrind_stage("c06_xmlfuzz", 4800, per_worker_env=xml_backend_env, env={"VERIF_NO_HUGE_ALLOC": "1"})],
     rule=("one input per case: a base document (corpus file 40%, v3 export of a small annotated topology 30%, v2-format export 20%, "
           "diff document 10%) with 0 (8%), 1 (69%) or 2-3 structure-aware mutations (attribute value replaced by boundary/garbage "
           "values incl. attribute-specific lists, tweaked, dropped, duplicated; element dropped, duplicated, moved, renamed; text "
